@@ -1144,7 +1144,7 @@ def rule_to_posix(r):
     def day(nd):
         return f"J{nd[1]}" if nd[0] == "J" else (str(nd[1]) if nd[0] == "Z" else f"M{nd[1]}.{nd[2]}.{nd[3]}")
     n1, n2 = name(r["std"]), name(r["dst"])
-    if n1 is None or n2 is None or abs(r["std"]["off"]) > 89999 or abs(r["dst"]["off"]) > 89999 or abs(r["st"]) > 167 * 3600 + 3599 or abs(r["et"]) > 167 * 3600 + 3599:
+    if n1 is None or n2 is None or abs(r["std"]["off"]) > 89999 or abs(r["dst"]["off"]) > 89999 or abs(r["st"]) > 168 * 3600 + 3599 or abs(r["et"]) > 168 * 3600 + 3599:
         return None
     return f"{n1}{hhmmss(-r['std']['off'])}{n2}{hhmmss(-r['dst']['off'])},{day(r['sd'])}/{hhmmss(r['st'])},{day(r['ed'])}/{hhmmss(r['et'])}"
 
@@ -1278,6 +1278,21 @@ def gen_c11(rng, n):
         rules.append(r)
         yield {"op": "rule", "a": {kk: r[kk] for kk in ("std", "dst", "sd", "st", "ed", "et")}}
     yield from gen_rule_strings(rng, rules)
+    # times towards the ends of the +-7 day window (three-digit hours, the last accepted second, the first refused one), through the
+    # constructor and as version-3 footers: the two must decide alike
+    wide = []
+    edge = [100 * 3600, -100 * 3600, 99 * 3600 + 3599, 101 * 3600 + 60, -(120 * 3600 + 1800), 167 * 3600, -167 * 3600, 167 * 3600 + 3599, -(167 * 3600 + 3599),
+            168 * 3600, -168 * 3600, 168 * 3600 + 1, 143 * 3600 + 59, -(110 * 3600 + 1)]
+    for i in range(max(40, n // 60)):
+        r = rand_rule(rng, near=rng.random() < 0.5)
+        which = rng.choice(["st", "et", "both"])
+        if which in ("st", "both"):
+            r["st"] = edge[i % len(edge)] if rng.random() < 0.7 else rng.choice([-1, 1]) * rng.randint(100 * 3600, 168 * 3600)
+        if which in ("et", "both"):
+            r["et"] = edge[(i * 5 + 3) % len(edge)] if rng.random() < 0.7 else rng.choice([-1, 1]) * rng.randint(100 * 3600, 168 * 3600)
+        wide.append(r)
+        yield {"op": "rule", "a": {kk: r[kk] for kk in ("std", "dst", "sd", "st", "ed", "et")}}
+    yield from gen_rule_strings(rng, wide)
     for _ in range(n // 10):
         k = rng.choice(["J", "Z", "M"])
         if k == "M":
@@ -1344,6 +1359,27 @@ def rand_tz_sentence(rng):
             s += rng.choice(TZ_OFFS[:13])
         s += "," + rng.choice(TZ_DAYS[:13]) + rng.choice(TZ_TIMES[:12]) + "," + rng.choice(TZ_DAYS[:13]) + rng.choice(TZ_TIMES[:12])
     return s
+
+
+def ext_edge_sentences():
+    """well-formed descriptions next to ones that only RFC 8536 extensions admit (signed or > 24 h rule times) and ones that nothing
+    admits (two signs), each differing from a plain sentence in ONE component"""
+    out = []
+    for t in ["/+2", "/-1", "/-0:30", "/25", "/100", "/167", "/+0", "/-0", "/24:59:59", "/24", "/+24", "/++2", "/-+2", "/+-2", "/168", "/-167:59:59"]:
+        out.append("EST5EDT,M3.2.0" + t + ",M11.1.0/2")
+        out.append("EST5EDT,M3.2.0/2,M11.1.0" + t)
+        out.append("<-03>3<-02>,J60" + t + ",300" + t)
+    for o in ["-+5", "+-5", "++5", "--5", "+5", "-5", "+05:00", "-+05:00", "+", "-"]:
+        out.append("EST" + o)
+        out.append("EST" + o + "EDT,M3.2.0,M11.1.0")
+        out.append("EST5EDT" + o + ",M3.2.0,M11.1.0")
+    return out
+
+
+def gen_ext_edge(vias=("v2", "v3", "settings")):
+    for s in ext_edge_sentences():
+        for via in vias:
+            yield {"op": "tzstring", "a": {"s": list(s.encode()), "via": via}}
 
 
 def gen_tzstrings(rng, n):
@@ -1637,6 +1673,9 @@ def gen_resolve(rng, n):
                 continue
             if txt and not txt.startswith(":") and "/" not in txt.split(",")[0]:
                 yield {"op": "resolve", "a": {"s": B(txt), "dirs": [B("/a"), B("/b")], "vfs": [], "via": "posix"}, "g": 1}
+    # descriptions one component away from needing extensions, as TZ values that no file answers: the fallback decodes WITHOUT extensions
+    for txt in ext_edge_sentences():
+        yield {"op": "resolve", "a": {"s": B(txt), "dirs": [B("/a")], "vfs": [[B("/b/" + txt), list(tiny_tzif(rng))]], "via": "posix"}, "g": 1}
     # white space that is not ASCII white space is part of the value: a description padded with it is not a description
     for ws in ["\x0b", "\u0085", "\u00a0", "\u2000", "\u2003", "\u2028", "\u3000", "\x1c"]:
         for desc in ["HST10", "UTC0", "EST5EDT,M3.2.0,M11.1.0"]:
